@@ -259,9 +259,9 @@ class ExecutionContext(AbstractContext):
 
         try:
             expr = next(view for view in views if view['args'][0]['string'] == name)
-            return self.resolve_global_constants(expr)
         except (StopIteration, KeyError, IndexError):
             return None
+        return self.resolve_global_constants(expr)
 
     def get_input_expr(self):
         return self.input_expr
